@@ -24,6 +24,8 @@ sys.path.insert(0, os.path.dirname(os.path.abspath(__file__)))
 from common import *
 a = parse_args()
 from hz import *
+import hz as _hz
+_hz.DECOY[0] = False      # this harness records / schedules the writers' own file operations: no decoy history here
 import seismic_zfp.conversion_utils as cu
 import seismic_zfp.conversion as cv
 import genx_pipeline
